@@ -215,6 +215,17 @@ def run(ctx):
     for i in range(n):
         kinds = [rng.choice(KINDS) for _ in range(rng.randrange(1, 9))]
         run_history(ctx, kinds, rng.choice(['record', 'replay']), rng.choice(['memory', 'memory', 'file', 's3']), rng.randrange(1 << 20))
+    if not ctx.quick and ctx.shard == 0:
+        # auxiliary workload: the repository's own tests with the idle predicates evaluated at every test teardown
+        from vlib.repo_tests import run_under_monitors
+        res, tail = run_under_monitors()
+        if res is None:
+            ctx.count('repo_tests_under_monitors_unavailable')
+        else:
+            ctx.count('repo_tests_idle_predicate_evaluations', res['idle_evaluations'])
+            ctx.note('repo_tests_summary', tail)
+            for v in res['idle_violations']:
+                ctx.violation('recorder not idle at teardown of a repository test: %s' % v['what'], v)
     ctx.sample({'history': ['interrupt_in_body', 'replay_missing_key'], 'probe': 'record', 'probe_program': describe(hist_program(1500))})
     if not ctx.counters.get('probes_compared'):
         ctx.inconclusive('no probe was compared')
